@@ -393,7 +393,8 @@ def compute_dynamics_with_field(
         if step == 0:
             field = initial_field
         else:
-            field = compute_field(t, dt, previous_state_list, field, state_list)
+            field = compute_field(t - dt, dt, previous_state_list, field,
+                                  state_list)
         previous_state_list = state_list
         if record_all:
             system_states_list.append(state_list)
@@ -458,7 +459,7 @@ def compute_dynamics_with_field(
 
     system_states_list.append(final_state_list)
 
-    final_field = compute_field(t, dt, previous_state_list, field,
+    final_field = compute_field(t - dt, dt, previous_state_list, field,
                                 final_state_list)
     field_list.append(final_field)
 
